@@ -148,6 +148,13 @@ def run_sequence(laze, files, steps):
         env = e2e.clean_env(tmp); env.update(PATH=bindir + ":" + env.get("PATH", ""), LAZE_VERIF_NINJA_LOG=os.path.join(tmp, "n.log"), LAZE_VERIF_NINJA_RC="0")
         out = []
         for a in steps:
+            if a and a[0] == "@damage":
+                # what an interrupted run or a full disk leaves in the build directory: truncated cache / ninja / info files
+                for name, size in a[1:]:
+                    fp = os.path.join(root, "build", name)
+                    if os.path.exists(fp):
+                        with open(fp, "r+b") as fh: fh.truncate(size)
+                out.append((0, "")); continue
             try:
                 p = subprocess.run([laze, "-C", root] + a, env=env, capture_output=True, timeout=30)
                 out.append((p.returncode, p.stderr.decode("utf-8", "replace")[-300:]))
@@ -247,6 +254,10 @@ def run(rep, tier, seed, rng):
         b = ["build", "-g"]
         seqs.append((f, [b + ["-G"] + sel, b + ["-G"] + INFO + sel, b + ["-G"] + INFO + sel, b + INFO + sel, b + sel,
                          ["build", "-g", "-c", "-G"] + sel, ["clean", "-g"], b + ["-G"] + INFO + sel, ["clean", "-g", "--unused"], b + ["nosuchtask"] + sel]))
+        dmg = lambda n: ["@damage", ("laze-cache-global.bincode", n), ("laze-cache-local.bincode", n)]
+        seqs.append((f, [b + ["-G"] + sel, dmg(0), b + ["-G"] + sel, dmg(8), b + sel, dmg(rng.choice([15, 16, 17, 24, 40, 100])), b + ["-G"] + sel,
+                         ["build", "-G"] + sel, dmg(rng.randint(0, 64)), ["build", "-G"] + sel,
+                         ["@damage", ("build-global.ninja", rng.randint(0, 30))], b + sel, ["clean", "-g"]]))
     with ThreadPoolExecutor(core.NCPU) as ex:
         souts = list(ex.map(lambda fs: run_sequence(laze, fs[0], fs[1]), seqs))
     nseq = 0
@@ -265,7 +276,7 @@ def run(rep, tier, seed, rng):
                    rule="(a) one or two structured malformations (24 kinds: parent cycles, unknown/duplicate/empty names, odd sources, rules without out/LINK, unclosed braces, "
                         "bad expressions and non-ASCII text in every string position, defaults with context lists, self-including files, ...) applied to random and directed "
                         "projects, compared with the model; (b) type confusion / deletion at a random node of the YAML structure; (c) 1-4 byte-level mutations of the YAML text; "
-                        "(d) malformed argument vectors; (e) valid projects with ten command lines in one build directory (generate, info export before/after a cached run, compile commands, clean, unknown task); for (b)-(e) only crashes, hangs and exit statuses outside {0,1,2} count; non-trivial = every structured malformed project",
+                        "(d) malformed argument vectors; (e) valid projects with ten command lines in one build directory (generate, info export before/after a cached run, compile commands, clean, unknown task), and with cache / ninja files truncated between the runs; for (b)-(e) only crashes, hangs and exit statuses outside {0,1,2} count; non-trivial = every structured malformed project",
                    samples=[dict(malformation=descs[0], rc=results[0]["impl"]["rc"], model=results[0]["model"]["kind"])],
                    malformation_kinds=kinds, other_streams=counts, panic_inventory_sites=len(now), panic_inventory_new=len(new), disagreements=ndis)
     rep.assumptions.append("serde_yaml, clap and the OS are exercised, not modelled; stack exhaustion at extreme nesting is outside the model")
